@@ -228,6 +228,26 @@ inductive ReachNoDelete (s0 : State) : State → Prop where
   | next {s s' : State} {a : L} : ReachNoDelete s0 s → step s a = some s' → ¬ unsafeDelete s a →
       ReachNoDelete s0 s'
 
+/-- `ReachNoDelete` under a scheduling policy that only disables steps. -/
+inductive ReachNoDeleteUnder (policy : State → L → Bool) (s0 : State) : State → Prop where
+  | init : ReachNoDeleteUnder policy s0 s0
+  | next {s s' : State} {a : L} : ReachNoDeleteUnder policy s0 s → policy s a = true →
+      step s a = some s' → ¬ unsafeDelete s a → ReachNoDeleteUnder policy s0 s'
+
+/-- Go's `sync.RWMutex` writer preference as a policy: a reader does not enter an item on which a
+writer waits. (The runtime's exact rule — a writer that has *announced* itself — disables a subset
+of these steps or the same ones; any such rule is a policy.) -/
+def writerPreference (s : State) : L → Bool
+  | .tau t _ =>
+    match s.pcs t with
+    | .lkFound _ .r m =>
+      !((List.range s.n).any fun t' =>
+          match s.pcs t' with
+          | .lkFound _ .w m' => m' == m
+          | _ => false)
+    | _ => true
+  | _ => true
+
 def taus (s : State) : List L := (List.range s.n).map (fun t => .tau t 0)
 
 instance : BEq State where
